@@ -207,6 +207,19 @@ class GStruct(GraphBase):
           lambda c: float(c["cmask"].with_new_array(_arr(c["cmask_big"]).copy()).circular_radius),
           lambda c: float(M(c, c["cmask_big"]).circular_radius))
 
+        # --- a copy is an independent object: writing into it (integer / slice index, i.e. in place on ITS buffer) must leave the
+        # structure it was copied from untouched; the event reports the source's contents after the write into the copy
+        def _write_into(cp):
+            cp[0] = cp[0] * 0 + 7
+            cp[1:2] = cp[1:2] * 0 - 3
+            return cp
+
+        for how, fn in (("copy.deepcopy(%s)", lambda x: _copy.deepcopy(x)), ("copy.copy(%s)", lambda x: _copy.copy(x)), ("%s.copy()", lambda x: x.copy()),
+                        ("copy.deepcopy({'k': %s})['k']", lambda x: _copy.deepcopy({"k": x, "again": [x]})["k"])):
+            for k in ("a", "aN", "g", "vis", "kern"):
+                E("write into %s then read %s (contents)" % (how % k, k),
+                  (lambda k, fn: lambda c: (_write_into(fn(c[k])), _arr(c[k]).copy())[1])(k, fn))
+
     def build(self):
         aa = self.aa
         r = dom.rng(self.seed, "c11struct", self.variant)
